@@ -179,7 +179,7 @@ def random_script(rnd, nobj=3, length=18):
         hs = sorted(prog)
         if not hs:
             break
-        c = rnd.choice(['clone', 'drop', 'link', 'link', 'unlink', 'weak', 'upgrade', 'wdrop', 'count', 'wcount'])
+        c = rnd.choice(['clone', 'drop', 'link', 'link', 'unlink', 'weak', 'upgrade', 'wdrop', 'count', 'wcount', 'show', 'rawrt'])
         if c == 'clone':
             h = rnd.choice(hs)
             n = fresh('c')
@@ -212,6 +212,15 @@ def random_script(rnd, nobj=3, length=18):
             w = rnd.choice(sorted(weaks))
             ops.append({'op': 'wdrop', 'w': w})
             del weaks[w]
+        elif c == 'show':
+            h = rnd.choice(hs)
+            ops.append({'op': rnd.choice(['hash', 'fmt_display', 'fmt_debug', 'fmt_pointer']), 'h': h})
+            if weaks:
+                ops.append({'op': 'wfmt_debug', 'w': rnd.choice(sorted(weaks))})
+        elif c == 'rawrt':
+            h = rnd.choice(hs)
+            r = fresh('r')
+            ops += [{'op': 'into_raw', 'h': h, 'as': r}, {'op': 'from_raw', 'r': r, 'as': h}]
         elif c == 'count':
             ops.append({'op': 'strong_count', 'h': rnd.choice(hs)})
             ops.append({'op': 'weak_count', 'h': rnd.choice(hs)})
@@ -219,9 +228,9 @@ def random_script(rnd, nobj=3, length=18):
             w = rnd.choice(sorted(weaks))
             ops.append({'op': 'w_strong_count', 'w': w})
             ops.append({'op': 'w_weak_count', 'w': w})
-    # final phase: drop every program handle, observing weak handles in between
+    # final phase: drop every program handle (ordinarily, or through into_raw + decrement_strong_count), observing weak handles in between
     for h in sorted(prog):
-        ops.append({'op': 'drop', 'h': h})
+        ops.append({'op': 'drop' if rnd.random() < 0.8 else 'drop_via_raw', 'h': h})
         for w in sorted(weaks):
             ops.append({'op': 'upgrade', 'w': w})
     for w in sorted(weaks):
